@@ -2,7 +2,7 @@
 call, the outcome class and the projected state.  Contains no expected values."""
 import sys
 
-sys.path.insert(0, "/repo")
+sys.path.insert(0, __import__("os").environ.get("VERIF_REPO", "/repo"))
 
 from fibertree import Fiber, Payload, Tensor, CoordPayload  # noqa: E402
 from fibertree.core.fiber import CoordinateError  # noqa: E402
